@@ -211,3 +211,56 @@ class Gen(object):
         if "float" in t and "int" not in t and isinstance(v, int):
             return float(v)
         return v
+
+
+# ---------------------------------------------------------------------------
+# documented rejections: calls the docstrings themselves declare invalid ("raises ValueError if ... are in the wrong
+# range / invalid", "raises TypeError if ... wrong type", a date needs year, month AND day, the target must be one of the
+# listed strings, ...).  Unlike the generic ill-typed variants (where accepting the argument is tolerated), these MUST be
+# refused with TypeError or ValueError.
+# ---------------------------------------------------------------------------
+def must_reject():
+    from pymeeus.Epoch import Epoch
+    from pymeeus.Angle import Angle as A
+    from pymeeus import Coordinates as C
+    from pymeeus.Sun import Sun
+    from pymeeus.Moon import Moon
+    from pymeeus.Interpolation import Interpolation
+    from pymeeus.Pluto import Pluto
+    return [
+        ("Epoch.check_input_date", "empty tuple", lambda: Epoch.check_input_date(())),
+        ("Epoch.check_input_date", "one-element tuple", lambda: Epoch.check_input_date((1987,))),
+        ("Epoch.check_input_date", "two-element list", lambda: Epoch.check_input_date([1987, 6])),
+        ("Epoch.check_input_date", "no argument", lambda: Epoch.check_input_date()),
+        ("Coordinates.mean_obliquity", "one-element list", lambda: C.mean_obliquity([1987])),
+        ("Coordinates.nutation_longitude", "empty tuple", lambda: C.nutation_longitude(())),
+        ("Coordinates.true_obliquity", "one-element tuple", lambda: C.true_obliquity((2000,))),
+        ("Coordinates.nutation_obliquity", "two-element list", lambda: C.nutation_obliquity([2000, 1])),
+        ("Epoch.__init__", "month 13", lambda: Epoch(2000, 13, 1)),
+        ("Epoch.__init__", "30 February", lambda: Epoch(2000, 2, 30)),
+        ("Epoch.__init__", "month 0", lambda: Epoch(2000, 0, 1)),
+        ("Epoch.__init__", "day 0", lambda: Epoch(2000, 1, 0)),
+        ("Epoch.__init__", "string", lambda: Epoch("2000")),
+        ("Epoch.get_month", "13", lambda: Epoch.get_month(13)),
+        ("Epoch.get_month", "unknown name", lambda: Epoch.get_month("Foo")),
+        ("Epoch.get_month", "0", lambda: Epoch.get_month(0)),
+        ("Epoch.doy2date", "day 400", lambda: Epoch.doy2date(2001, 400)),
+        ("Epoch.doy2date", "day 0", lambda: Epoch.doy2date(2001, 0)),
+        ("Epoch.doy2date", "day 366 of a common year", lambda: Epoch.doy2date(2001, 366)),
+        ("Epoch.rise_set", "latitude 70", lambda: Epoch(2000, 1, 1).rise_set(A(70.0), A(0.0))),
+        ("Sun.get_equinox_solstice", "year 3001", lambda: Sun.get_equinox_solstice(3001, "spring")),
+        ("Sun.get_equinox_solstice", "year -1001", lambda: Sun.get_equinox_solstice(-1001, "winter")),
+        ("Sun.get_equinox_solstice", "unknown target", lambda: Sun.get_equinox_solstice(2000, "foo")),
+        ("Moon.moon_phase", "unknown target", lambda: Moon.moon_phase(Epoch(2000, 1, 1), "foo")),
+        ("Moon.moon_passage_nodes", "unknown target", lambda: Moon.moon_passage_nodes(Epoch(2000, 1, 1), "up")),
+        ("Angle.__init__", "string", lambda: A("x")),
+        ("Angle.__init__", "None", lambda: A(None)),
+        ("Coordinates.planetary_conjunction", "two entries", lambda: C.planetary_conjunction([A(1), A(2)], [A(1), A(2)], [A(1), A(2)], [A(1), A(2)])),
+        ("Coordinates.planetary_conjunction", "uneven lists", lambda: C.planetary_conjunction([A(1), A(2), A(3)], [A(1), A(2)], [A(1), A(2), A(3)], [A(1), A(2), A(3)])),
+        ("Interpolation.__init__", "duplicated abscissa", lambda: Interpolation([1, 1, 2], [3, 4, 5])),
+        ("Interpolation.__call__", "outside the table", lambda: Interpolation([1, 2, 3], [3, 4, 5])(7.0)),
+        ("Interpolation.derivative", "outside a two-point table", lambda: Interpolation([0.5, 1.85], [1.0, -1.7]).derivative(2.35)),
+        ("Coordinates.straight_line", "float in sixth place", lambda: C.straight_line(A(1), A(2), A(3), A(4), A(5), 6.0)),
+        ("Coordinates.angular_separation", "float in fourth place", lambda: C.angular_separation(A(1), A(2), A(3), 4.0)),
+        ("Pluto.geocentric_position", "year 1800", lambda: Pluto.geocentric_position(Epoch(1800, 1, 1))),
+    ]
